@@ -550,6 +550,10 @@ func (e *vfE7Env) run(c vfE7Case) (status int, reqs []string) {
 		c.method, vfE7HexList(c.segs), vfE7HexList(c.users), vfE7Hex(c.acl), hl, b(cidrSet), b(innet), b(c.notify),
 		b(bodyOK), vfE7Hex(action), vfE7Hex(btopic), vfE7Hex(bchan), vfE7HexList(others), vfE7HexList(lfail),
 		e.cl.worldFields(c.world))
+	if isConfig {
+		// the literal inputs of the CIDR gate, for the independent check of the `innet` fact (ignored by the model)
+		op += fmt.Sprintf(" xcidr=%s xremote=%s", vfE7Hex(c.cidr), vfE7Hex(c.remoteOr()))
+	}
 	rs := "-"
 	if c.method == "GET" && !isConfig {
 		if len(reqs) > 0 {
